@@ -100,9 +100,11 @@ def judgeExcl (_payload impl : String) : Verdict :=
     | some (.list (.atom "hold" :: .list [.atom "maxinside", k] :: rest)) =>
       -- the hold policy: somebody reached the region, and never two at once
       k.toStr == "1" && !rest.any (fun x => x.toStr == "deadlock" || x.toStr == "panic")
-    | some (.list [.atom "stress", .list [.atom "emits", n], .list [.atom "items", i], .list [.atom "distinct", d], .list [.atom "matched", m]]) =>
-      -- free-running emitters: exactly N items, N distinct identities, the statistic grown by N
-      i.toStr == n.toStr && d.toStr == n.toStr && m.toStr == n.toStr
+    | some (.list [.atom "stress", .list [.atom "emits", n], .list [.atom "items", i], .list [.atom "distinct", d], .list [.atom "matched", m],
+        .list [.atom "fresh", _, bad]]) =>
+      -- free-running emitters: exactly N items, N distinct identities, the statistic grown by N; and on every fresh
+      -- stream the first two concurrent Emit calls got the identities 0 and 1
+      i.toStr == n.toStr && d.toStr == n.toStr && m.toStr == n.toStr && bad.toStr == "0"
     | some (.list [.atom "excl", .atom "reached", .list (.atom "after" :: steps)]) =>
       let names := steps.filterMap fun | .atom a => some a | _ => none
       names.length == steps.length && names.getLast? == some "blocked" &&
